@@ -11,7 +11,8 @@ import traceback
 
 import numpy as np
 
-MAX_STORED_VIOLATIONS = 60  # per worker process (all are *counted*)
+MAX_STORED_VIOLATIONS = 240  # per worker process (all are *counted*)
+MAX_STORED_PER_MONITOR = 12
 MAX_SAMPLES = 4
 
 
@@ -211,7 +212,10 @@ class Recorder:
 
     def violation(self, monitor, **info):
         self.vio_counts[monitor] += 1
-        if len(self.violations) < MAX_STORED_VIOLATIONS:
+        if (
+            self.vio_counts[monitor] <= MAX_STORED_PER_MONITOR
+            and len(self.violations) < MAX_STORED_VIOLATIONS
+        ):
             self.violations.append(
                 {
                     "property": self.prop,
